@@ -287,7 +287,8 @@ class DimensionedItem:
 
         dim_from_value = list(arr.shape[1:])
         if self.dimension.value is not None:
-            if dim_from_value != self.dimension.value:
+            # values without inner structure go with the default dimension [1], which is set for them at write time
+            if (dim_from_value or [1]) != (self.dimension.value or [1]):
                 raise RuntimeError(f"{self}: shape of {value_label} {value} (shape {arr.shape}) does not match "
                                    f"the specified dimensionality: {self.dimension.value}")
         else:
